@@ -400,18 +400,34 @@ func verifC03(K int) {
 					}
 				}
 			}
-			// reading or superseding the same key version as a writer conflicts
-			if (fam[a].wkey != "" || fam[c].wkey != "") && len(fam[a].keyIn) > 0 && len(fam[c].keyIn) > 0 && fam[a].keyIn[0] == fam[c].keyIn[0] {
-				return true
+			// a = pending member, c = the block's member, both citing the same version of k1:
+			// if the block's member overwrites it, the pending one is stale afterwards;
+			// if the block's member only reads it and was never seen by this node, a pending writer
+			// of that version has to be undone for the block to apply (a reader this node admitted
+			// itself was admitted before the writer, which is a valid order)
+			if len(fam[a].keyIn) > 0 && len(fam[c].keyIn) > 0 && fam[a].keyIn[0] == fam[c].keyIn[0] {
+				if fam[c].wkey != "" && (fam[a].wkey != "" || !inPool[c]) {
+					return true
+				}
+				if fam[a].wkey != "" && !inPool[c] {
+					return true
+				}
 			}
 			return false
 		}
 		// rebuild the oracle: confirmed effects first, then surviving pool members in admission order is not tracked;
 		// so recompute from scratch: drop conflicting pool members and their dependants
 		drop := map[int]bool{}
+		// a pending transaction that only READ the version the block's member overwrites, while that
+		// member was pending here too: the property does not say whether it stays pending (it was
+		// current when admitted, before the writer); nothing is asserted about it
+		dontCare := map[int]bool{}
 		for j := range fam {
 			if inPool[j] && j != i && conflicts(j, i) {
 				drop[j] = true
+			}
+			if inPool[j] && j != i && fam[j].wkey == "" && fam[i].wkey != "" && inPool[i] && len(fam[j].keyIn) > 0 && fam[j].keyIn[0] == fam[i].keyIn[0] {
+				dontCare[j] = true
 			}
 		}
 		for changed := true; changed; {
@@ -449,8 +465,21 @@ func verifC03(K int) {
 				validOnConfirmed = false // k1 is no longer at the never-written version
 			}
 		}
+		unseenReaderVsPendingWriter := false
+		for j := range fam {
+			if inPool[j] && j != i && fam[j].wkey != "" && fam[i].wkey == "" && !inPool[i] && len(fam[i].keyIn) > 0 && fam[j].keyIn[0] == fam[i].keyIn[0] {
+				unseenReaderVsPendingWriter = true
+			}
+		}
 		err := s.Play(b.Blockid)
 		vrt.Quiesce()
+		vrt.Known("pending-writer-blocks-unseen-reader", unseenReaderVsPendingWriter)
+		if !vrt.Symbolic() {
+			println("C03 play member", i, "validOnConfirmed", validOnConfirmed, "err", err != nil)
+			if err != nil {
+				println("   error:", err.Error())
+			}
+		}
 		vrt.Cover("block-played", err == nil)
 		vrt.Assert((err == nil) == validOnConfirmed, "block-admitted-iff-its-transaction-is-current-on-the-confirmed-state")
 		if err != nil {
@@ -482,6 +511,13 @@ func verifC03(K int) {
 			got[string(t.Txid)] = true
 		}
 		for j := range fam {
+			if dontCare[j] {
+				inPool[j] = got[string(fam[j].tx.Txid)]
+				continue
+			}
+			if !vrt.Symbolic() && got[string(fam[j].tx.Txid)] != inPool[j] {
+				println("C03 pool mismatch member", j, "in real pool", got[string(fam[j].tx.Txid)], "oracle", inPool[j])
+			}
 			vrt.Assert(got[string(fam[j].tx.Txid)] == inPool[j], "pool-holds-exactly-the-non-conflicting-pending-transactions")
 		}
 	}
